@@ -14,6 +14,7 @@ import (
 	"go.uber.org/zap"
 	"go.uber.org/zap/zapcore"
 
+	"github.com/bloxapp/ssv/eth/eventsyncer"
 	"github.com/bloxapp/ssv/eth/executionclient"
 
 	"verifharness/internal/evid"
@@ -708,6 +709,23 @@ func (r *runner) streamPart(ec *executionclient.ExecutionClient, from uint64) {
 
 // runSync: the event syncer's sequence: FetchHistoricalLogs(from) handled to the end, then StreamLogs(last + 1)
 // (or StreamLogs(from) when there was nothing to sync), cli/operator/node.go + eth/eventsyncer.
+// histHandler stands in for the event handler during the historical sync: it records what it is handed and reports the last
+// block like eventhandler.HandleBlockEventsStream does.
+type histHandler struct {
+	n   *fakeNode
+	cnt *int
+}
+
+func (h histHandler) HandleBlockEventsStream(logs <-chan executionclient.BlockLogs, _ bool) (uint64, error) {
+	var last uint64
+	for bl := range logs {
+		h.n.recv(entry{Block: bl.BlockNumber, Logs: bl.Logs, NLogs: len(bl.Logs), Phase: "hist"})
+		last = bl.BlockNumber
+		*h.cnt++
+	}
+	return last, nil
+}
+
 func runSync(c *evid.Case) {
 	r := setup(c, "sync")
 	if r == nil {
@@ -728,64 +746,63 @@ func runSync(c *evid.Case) {
 	n.mu.Lock()
 	n.logf("harness: FetchHistoricalLogs(from=%d) at head %d", r.p.From, n.head)
 	n.mu.Unlock()
-	logs, errs, err := ec.FetchHistoricalLogs(ctx, r.p.From)
+	// the node's own hand-over: EventSyncer.SyncHistory (real) feeding a recording event handler, then the switch of
+	// cli/operator/node.go that turns its result into the block the ongoing stream starts from
+	cnt := 0
+	histDone := false
+	es := eventsyncer.New(nil, ec, histHandler{n: n, cnt: &cnt})
+	var last uint64
+	var herr error
+	done := make(chan struct{})
+	go func() {
+		last, herr = es.SyncHistory(ctx, r.p.From)
+		n.mu.Lock()
+		histDone = true
+		n.bump()
+		n.mu.Unlock()
+		close(done)
+	}()
+	if r.p.HistHold >= 0 {
+		if !n.wait(func() bool { return n.held != nil || histDone }, waitQuiet, stepWatchdog) {
+			c.Inconclusive("historical fetch neither held nor finished within the watchdog")
+			n.shutdown()
+			return
+		}
+		n.mu.Lock()
+		held := n.held != nil
+		n.mu.Unlock()
+		if held {
+			n.advance(r.p.HistAdvance, true) // the chain grows while the historical sync runs
+			c.Count("sync_head_advanced_during_history", 1)
+		}
+		n.disarm()
+	}
+	select {
+	case <-done:
+	case <-time.After(stepWatchdog):
+		c.Inconclusive("historical sync did not finish within the watchdog")
+		n.shutdown()
+		return
+	}
 	streamFrom := r.p.From
 	switch {
-	case errors.Is(err, executionclient.ErrNothingToSync):
+	case errors.Is(herr, executionclient.ErrNothingToSync):
+		// node.go: nothing was synced, keep fromBlock as is
 		c.Count("sync_nothing_to_sync", 1)
-	case err != nil:
-		c.Inconclusive("FetchHistoricalLogs failed without an injected fault: " + err.Error())
+	case herr == nil:
+		streamFrom = last + 1 // node.go: fromBlock = lastProcessedBlock + 1
+	case r.p.From == 0 && strings.Contains(herr.Error(), "lastProcessedBlock is 0"):
+		// a history that consists of block 0 only: the syncer treats "last processed block 0" as a failure (the node exits).
+		// Block 0 is not a start block a node is configured with; the case is counted and left unjudged.
+		c.Count("sync_history_of_block_zero_only_skipped", 1)
 		n.shutdown()
 		return
 	default:
-		done := make(chan struct{})
-		histDone := false
-		var last uint64
-		cnt := 0
-		go func() {
-			for bl := range logs {
-				n.recv(entry{Block: bl.BlockNumber, Logs: bl.Logs, NLogs: len(bl.Logs), Phase: "hist"})
-				last = bl.BlockNumber
-				cnt++
-			}
-			n.mu.Lock()
-			histDone = true
-			n.bump()
-			n.mu.Unlock()
-			close(done)
-		}()
-		if r.p.HistHold >= 0 {
-			if !n.wait(func() bool { return n.held != nil || histDone }, waitQuiet, stepWatchdog) {
-				c.Inconclusive("historical fetch neither held nor finished within the watchdog")
-				n.shutdown()
-				return
-			}
-			n.mu.Lock()
-			held := n.held != nil
-			n.mu.Unlock()
-			if held {
-				n.advance(r.p.HistAdvance, true) // the chain grows while the historical sync runs
-				c.Count("sync_head_advanced_during_history", 1)
-			}
-			n.disarm()
-		}
-		select {
-		case <-done:
-		case <-time.After(stepWatchdog):
-			c.Inconclusive("historical fetch did not finish within the watchdog")
-			n.shutdown()
-			return
-		}
-		if e := <-errs; e != nil {
-			c.Inconclusive("historical fetch failed without an injected fault: " + e.Error())
-			n.shutdown()
-			return
-		}
-		if cnt > 0 {
-			streamFrom = last + 1 // node.go: fromBlock = lastProcessedBlock + 1
-		}
-		c.Count("sync_history_entries", int64(cnt))
+		c.Inconclusive("SyncHistory failed without an injected fault: " + herr.Error())
+		n.shutdown()
+		return
 	}
+	c.Count("sync_history_entries", int64(cnt))
 	n.disarm()
 	r.streamPart(ec, streamFrom)
 }
